@@ -533,6 +533,85 @@ def run(ctx: Any, prog: Program) -> None:
 
     for modname, clsname, meth, extra in COPIES:
         analyse_copy(ctx, prog, modname, clsname, meth, extra)
+    # ---- P6: copy() carries a field under no more conditions than export() writes it ------------------------------------------------------
+    # Sibling agreement: both walk the whole object.  If export() writes `strata_points` whenever it is present, but copy() only reaches the
+    # statement that carries it when the face is also a displacement (an early `return` for ordinary faces placed above it), the copy of an
+    # ordinary face loses the field.  Conditions are compared by the fields they look at (properties expanded to the fields they read).
+    ctx.rule('C09.P6', 'a field that copy() assigns after construction is guarded by no field that export() does not also consult before writing it', floor=4)
+    for cls6 in ('Side', 'Solid', 'Entity'):
+        meths6 = vm.methods(cls6)
+        if 'copy' not in meths6 or 'export' not in meths6:
+            continue
+        cp6, ex6 = meths6['copy'], meths6['export']
+        me_c, me_e = cp6.args.args[0].arg, ex6.args.args[0].arg
+
+        def prop_attrs(a: str, depth: int = 0) -> Set[str]:
+            f_ = meths6.get(a)
+            if f_ is not None and depth < 3 and any(dotted(d) == 'property' for d in f_.decorator_list):
+                body_ = [b for b in f_.body if not (isinstance(b, ast.Expr) and isinstance(b.value, ast.Constant))]
+                if len(body_) == 1 and isinstance(body_[0], ast.Return) and body_[0].value is not None:
+                    inner = {x.attr for x in ast.walk(body_[0].value) if isinstance(x, ast.Attribute) and isinstance(x.value, ast.Name) and x.value.id == f_.args.args[0].arg}
+                    out_: Set[str] = set()
+                    for i_ in inner:
+                        out_ |= prop_attrs(i_, depth + 1)
+                    return out_ or {a}
+            return {a}
+
+        def test_attrs(t: ast.AST, me: str) -> Set[str]:
+            out_: Set[str] = set()
+            for x in ast.walk(t):
+                if isinstance(x, ast.Attribute) and isinstance(x.value, ast.Name) and x.value.id == me:
+                    out_ |= prop_attrs(x.attr)
+            return out_
+
+        def guards_of(node: ast.AST, fn: ast.AST, me: str) -> Set[str]:
+            """fields consulted by every test that decides whether `node` runs: enclosing ifs, and earlier `if ...: return` statements"""
+            out_: Set[str] = set()
+            ch, par = node, vm.parents.get(node)
+            while par is not None:
+                if isinstance(par, ast.If) and ch is not par.test:
+                    out_ |= test_attrs(par.test, me)
+                for fld in ('body', 'orelse', 'finalbody'):
+                    blk = getattr(par, fld, None)
+                    if isinstance(blk, list) and ch in blk:
+                        for prev in blk[:blk.index(ch)]:
+                            if isinstance(prev, ast.If) and prev.body and isinstance(prev.body[-1], (ast.Return, ast.Raise, ast.Continue, ast.Break)):
+                                out_ |= test_attrs(prev.test, me)
+                if par is fn:
+                    break
+                ch, par = par, vm.parents.get(par)
+            return out_
+        # export side: fields read, with the guards of each read; private helpers of export are followed, their call-site guards added
+        ex_guards: Dict[str, Set[str]] = {}
+        todo6: List[Tuple[ast.AST, Set[str]]] = [(ex6, set())]
+        seen6: Set[str] = set()
+        while todo6:
+            f6, base6 = todo6.pop()
+            me6 = f6.args.args[0].arg
+            for x in ast.walk(f6):
+                if isinstance(x, ast.Attribute) and isinstance(x.value, ast.Name) and x.value.id == me6 and isinstance(x.ctx, ast.Load):
+                    par6 = vm.parents.get(x)
+                    if isinstance(par6, ast.Call) and par6.func is x and x.attr in meths6 and x.attr not in seen6:
+                        seen6.add(x.attr)
+                        todo6.append((meths6[x.attr], base6 | guards_of(par6, f6, me6)))
+                    elif x.attr not in meths6 or any(dotted(d) == 'property' for d in meths6[x.attr].decorator_list):
+                        for a_ in prop_attrs(x.attr):
+                            ex_guards.setdefault(a_, set()).update(base6 | guards_of(x, f6, me6))
+        # copy side: stores into the new object after it was built
+        news6 = {t.id for a in walk_no_nested(cp6) if isinstance(a, ast.Assign) and isinstance(a.value, ast.Call) for t in a.targets if isinstance(t, ast.Name)}
+        for a in walk_no_nested(cp6):
+            if not isinstance(a, ast.Assign):
+                continue
+            for t in a.targets:
+                if isinstance(t, ast.Attribute) and isinstance(t.value, ast.Name) and t.value.id in news6:
+                    F = t.attr
+                    if F not in ex_guards:
+                        continue
+                    cg = guards_of(a, cp6, me_c)
+                    extra = sorted(cg - {F} - ex_guards[F])
+                    ctx.check('C09.P6', not extra, vm, a, f'{cls6}.copy carries `{F}` only when tests on {sorted(cg)} allow it, while {cls6}.export writes it depending on {sorted(ex_guards[F] | {F})} alone: an object for which '
+                              f'the test on {extra} fails keeps `{F}` when written but loses it when copied', func=f'{cls6}.copy', text=f'{cls6}.copy: `{F}` carried under the conditions export() writes it')
+
     # ---- P5: what decides whether an optional part is copied is its presence, not its truth value ------------------------------------
     ctx.rule('C09.P5', 'copy methods test optional fields with `is None` / `is not None`: a present but falsy value (Vec(0, 0, 0), an empty list) is still copied', floor=1)
     FALSY_BUILTINS = {'list', 'List', 'dict', 'Dict', 'set', 'Set', 'tuple', 'Tuple', 'str', 'int', 'float', 'bytes', 'Sequence', 'Mapping', 'MutableMapping'}
@@ -669,6 +748,8 @@ def run(ctx: Any, prog: Program) -> None:
 
 
 MUTANTS = [
+    {'id': 'side_copy_returns_before_strata_points', 'file': 'vmf.py', 'find': "        if self.strata_points is not None:\n            new_side.strata_points = [point.copy() for point in self.strata_points]\n", 'replace': "        if not self.is_disp:\n            return new_side\n        if self.strata_points is not None:\n            new_side.strata_points = [point.copy() for point in self.strata_points]\n", 'expect': 'C09.P6'},
+    {'id': 'ok_side_copy_strata_points_first', 'file': 'vmf.py', 'find': "        side_mapping[self.id] = new_side.id\n        if self.is_disp:", 'replace': "        side_mapping[self.id] = new_side.id\n        if self.strata_points is not None:\n            new_side.strata_points = [point.copy() for point in self.strata_points]\n        if self.is_disp:", 'expect': None},
     {'id': 'entity_copy_logical_pos_heuristic', 'file': 'vmf.py', 'find': "            logical_pos=self.logical_pos,\n            vis_shown=self.vis_shown if keep_vis else True,", 'replace': "            logical_pos=None if self.logical_pos.startswith('[0 ') else self.logical_pos,\n            vis_shown=self.vis_shown if keep_vis else True,", 'expect': 'C09.P1'},
     {'id': 'entity_copy_shares_fixup_records', 'file': 'vmf.py', 'find': "            fixup=self._fixup.copy_values() if self._fixup is not None else (),", 'replace': "            fixup=self._fixup._fixup.values() if self._fixup is not None else (),", 'expect': 'C09.P2'},
     {'id': 'side_copy_disp_by_truthiness', 'file': 'vmf.py', 'find': "        if self.is_disp:\n            assert self.disp_pos is not None\n            assert self._disp_verts is not None\n            new_side.disp_flags = self.disp_flags", 'replace': "        if self.is_disp and self.disp_pos and self._disp_verts:\n            new_side.disp_flags = self.disp_flags", 'expect': 'C09.P5'},
